@@ -34,8 +34,8 @@ ASSUMPTIONS = [
     "a URL component mixing valid %XX escapes with stray '%' may be encoded either way (keep valid escapes / encode every '%')",
 ]
 REQUIRED_PROBES = {
-    "quick": ["rejected_zero_bytes", "accepted_exact", "entry:conn", "entry:pool", "entry:pm", "entry:h2", "h2_rejected", "h2_accepted", "obs_fold_roundtrip", "target_percent_encoded", "body_checked", "follow_up_clean_after_rejection", "follow_up_clean"],
-    "thorough": ["rejected_zero_bytes", "accepted_exact", "entry:conn", "entry:pool", "entry:pm", "entry:h2", "h2_rejected", "h2_accepted", "obs_fold_roundtrip", "target_percent_encoded", "body_checked", "follow_up_clean_after_rejection", "follow_up_clean"],
+    "quick": ["rejected_zero_bytes", "accepted_exact", "entry:conn", "entry:pool", "entry:pm", "entry:h2", "h2_rejected", "h2_accepted", "obs_fold_roundtrip", "target_percent_encoded", "body_checked", "follow_up_clean_after_rejection", "follow_up_clean", "warm_connection_in_pool", "early_answer_then_follow_up"],
+    "thorough": ["rejected_zero_bytes", "accepted_exact", "entry:conn", "entry:pool", "entry:pm", "entry:h2", "h2_rejected", "h2_accepted", "obs_fold_roundtrip", "target_percent_encoded", "body_checked", "follow_up_clean_after_rejection", "follow_up_clean", "warm_connection_in_pool", "early_answer_then_follow_up"],
 }
 
 HOSTILE = [
@@ -99,6 +99,17 @@ def gen(rng, k):
     sc = {"property": ID, "entry": entry, "method": method, "path": path, "headers": headers, "container": cont, "body": body, "hostile": nh}
     if entry in ("h2", "pool", "pm"):
         sc["second"] = rng.random() < 0.5
+    if entry in ("pool", "pm") and rng.random() < 0.3:
+        sc["warm"] = True
+        sc["second"] = True
+    if entry in ("pool", "pm") and nh == 0 and rng.random() < 0.08:
+        # a large upload to a server that answers as soon as it has the header block and stops reading; the body write is cut short
+        # by a send time-out (or a reset) half way.  Whatever follows on that pool must start at a message boundary.
+        sc["method"], sc["body"] = "POST", "u" * 20000
+        sc["headers"] = [h for h in sc["headers"] if h[0].lower() not in ("content-length", "transfer-encoding", "host")]
+        sc["early"] = {"status": 413, "send_fault": rng.choice(["timeout", "timeout", "reset", "epipe"])}
+        sc["second"] = True
+        sc["warm"] = False
     return sc
 
 
@@ -131,7 +142,11 @@ def run(sc: dict) -> Result:
     if entry == "h2":
         return run_h2(sc, res)
     urllib3 = H.u3()
-    w = W.World({})
+    wsc = {}
+    if sc.get("early"):
+        # I/O steps of the call: connect, send(header block), send(body): the third is cut after half of its bytes
+        wsc = {"early": sc["early"], "step_faults": [{"at": 2, "kind": sc["early"]["send_fault"], "after": "half"}]}
+    w = W.World(wsc)
     w.default_listener = H.origin_factory()
     hdrs = _mk_headers(sc)
     body = sc["body"]
@@ -139,6 +154,23 @@ def run(sc: dict) -> Result:
     holder = {"obj": None}
     with H.RunEnv(), H.quiet_warnings(), w:
         err = None
+        mark0 = {}
+        warm = bool(sc.get("warm")) and entry in ("pool", "pm")
+        if warm:
+            # an earlier, ordinary request leaves an established keep-alive connection in the pool; the server will close it
+            # while idle (after the call under test)
+            w.exchanges.append({"k": "resp", "status": 200, "body": "warm", "end": "idle_close", "close_delay": 1.0})
+            try:
+                if entry == "pool":
+                    holder["obj"] = urllib3.HTTPConnectionPool("h.test", 80, timeout=3.0)
+                    holder["obj"].urlopen("GET", "/warm", retries=False)
+                else:
+                    holder["obj"] = urllib3.PoolManager(timeout=3.0)
+                    holder["obj"].request("GET", "http://h.test/warm", retries=False)
+                res.probes["warm_connection_in_pool"] += 1
+            except Exception as e:
+                H.strip_tb(e)
+            mark0 = {s_.sid: len(s_.sent) for s_ in w.sockets}
         try:
             if entry == "conn":
                 from urllib3.connection import HTTPConnection
@@ -149,10 +181,10 @@ def run(sc: dict) -> Result:
                 r.read()
                 c.close()
             elif entry == "pool":
-                p = holder["obj"] = urllib3.HTTPConnectionPool("h.test", 80, timeout=3.0)
+                p = holder["obj"] = holder["obj"] or urllib3.HTTPConnectionPool("h.test", 80, timeout=3.0)
                 p.urlopen(method, path, body=body, headers=hdrs, retries=False)
             else:
-                pm = holder["obj"] = urllib3.PoolManager(timeout=3.0)
+                pm = holder["obj"] = holder["obj"] or urllib3.PoolManager(timeout=3.0)
                 pm.request(method, "http://h.test" + path, body=body, headers=hdrs, retries=False)
         except (W.SimHang, W.StepLimit) as e:
             err = e
@@ -160,8 +192,10 @@ def run(sc: dict) -> Result:
         except Exception as e:
             err = e
             H.strip_tb(e)
-        sent = b"".join(bytes(s.sent) for s in w.sockets)
-        n_socks_written = sum(1 for s in w.sockets if s.sent)
+        sent = b"".join(bytes(s.sent[mark0.get(s.sid, 0):]) for s in w.sockets)
+        n_socks_written = sum(1 for s in w.sockets if len(s.sent) > mark0.get(s.sid, 0))
+        if warm:
+            w.advance(2.0)  # the server's idle close arrives: the pooled connection object will be closed and re-opened at checkout
         # ---- a benign follow-up through the same pool / manager: whatever the first call left behind (a half-assembled request
         #      in a recycled connection object, say) must not reach the wire with it
         obj = holder["obj"]
@@ -180,6 +214,16 @@ def run(sc: dict) -> Result:
                 H.strip_tb(e)
                 err2 = e
             delta = b"".join(bytes(s_.sent[mark.get(s_.sid, 0):]) for s_ in w.sockets)
+            if sc.get("early") and delta:
+                res.probes["early_answer_then_follow_up"] += 1
+                # the follow-up must start a message of its own: on the socket that carried it, everything written before it has
+                # to be complete requests
+                for s_ in w.sockets:
+                    before = bytes(s_.sent[: mark.get(s_.sid, 0)])
+                    if len(s_.sent) > mark.get(s_.sid, 0) and before:
+                        rq0, left0, perr0 = HW.parse_requests(before)
+                        if perr0 or left0:
+                            res.bad("follow_up_inside_previous_message", f"GET /follow was written onto socket {s_.sid} on which the previous request is incomplete ({len(before)} bytes, {perr0 or 'body short'}): a server reads it as that request's body")
             reqs2, left2, perr2 = HW.parse_requests(delta)
             if perr2 or left2 or len(reqs2) != 1:
                 res.bad("follow_up_not_exactly_one_request", f"after {('the rejected' if err is not None else 'the accepted')} call, a plain GET /follow wrote: {delta[:200]!r} ({err2!r:.80})")
@@ -198,7 +242,10 @@ def run(sc: dict) -> Result:
         obj = holder["obj"] = None
         if err is not None and not isinstance(err, (W.SimHang, W.StepLimit)):
             reqs, left, perr = HW.parse_requests(sent)
-            if sent:
+            if sent and sc.get("early") and w.faults_fired:
+                # the write was cut short by the injected network fault, not by a refusal of the caller's input
+                res.probes["send_cut_by_fault"] += 1
+            elif sent:
                 # a failure after bytes went out is only acceptable if what went out is exactly the one well-formed request
                 # (e.g. the server's answer could not be read); otherwise bytes were written before the input was refused
                 if perr or left or len(reqs) != 1:
@@ -218,6 +265,7 @@ def run(sc: dict) -> Result:
                 check_request(sc, reqs[0], res, entry)
                 if not res.violations:
                     res.probes["accepted_exact"] += 1
+        res.faults.update(w.faults_fired)
         res.digest = w.digest()
         res.trace = hash((entry, method, path, tuple(map(tuple, sc["headers"])), sc["container"], body))
         res.nontrivial = sc.get("hostile", 0) > 0
@@ -434,7 +482,11 @@ def shrinks(sc):
             c = copy.deepcopy(sc)
             c[fld] = simple
             yield c
-    if sc.get("second"):
+    if sc.get("warm"):
+        c = copy.deepcopy(sc)
+        c["warm"] = False
+        yield c
+    if sc.get("second") and not sc.get("warm"):
         c = copy.deepcopy(sc)
         c["second"] = False
         yield c
